@@ -2002,6 +2002,16 @@ class Transport(threading.Thread, ClosingContextManager):
         key = self._key_info[self.host_key_type](Message(host_key))
         if key is None:
             raise SSHException("Unknown host key type")
+        # The signature must use the host key algorithm that was negotiated
+        # (key classes verify any algorithm/curve they know, e.g. RSAKey picks
+        # the hash named inside the signature), so compare explicitly.
+        expected = self.host_key_type.replace("-cert-v01@openssh.com", "")
+        if Message(sig).get_string() != b(expected):
+            raise SSHException(
+                "Signature algorithm does not match negotiated host key algorithm ({})".format(  # noqa
+                    self.host_key_type
+                )
+            )
         if not key.verify_ssh_sig(self.H, Message(sig)):
             raise SSHException(
                 "Signature verification ({}) failed.".format(
